@@ -353,6 +353,9 @@ class S256Point(Point):
         return self.p2tr_script(merkle_root, tweak).address(network)
 
     def verify(self, z, sig):
+        # r and s have to be in the range [1, N-1]
+        if sig.r < 1 or sig.r >= N or sig.s < 1 or sig.s >= N:
+            return False
         # remember sig.r and sig.s are the main things we're checking
         # remember 1/s = pow(s, N-2, N)
         s_inv = pow(sig.s, N - 2, N)
@@ -362,7 +365,9 @@ class S256Point(Point):
         v = sig.r * s_inv % N
         # u*G + v*P should have as the x coordinate, r
         total = u * G + v * self
-        return total.x.num == sig.r
+        if total.x is None:
+            return False
+        return total.x.num % N == sig.r
 
     def verify_message(self, message, sig):
         """Verify a message in the form of bytes. Assumes that the z
